@@ -196,6 +196,20 @@ pub fn perf_for_mode(map: &Beatmap, mode: GameMode) -> Performance<'_> {
     }
 }
 
+/// The mode-specific builder given the map *by value* (`<Mode>Performance::new(map)` / `::from(map)`).
+pub fn perf_for_mode_owned(map: Beatmap, mode: GameMode, via_from: bool) -> Performance<'static> {
+    match (mode, via_from) {
+        (GameMode::Osu, false) => Performance::Osu(OsuPerformance::new(map)),
+        (GameMode::Taiko, false) => Performance::Taiko(TaikoPerformance::new(map)),
+        (GameMode::Catch, false) => Performance::Catch(CatchPerformance::new(map)),
+        (GameMode::Mania, false) => Performance::Mania(ManiaPerformance::new(map)),
+        (GameMode::Osu, true) => Performance::Osu(OsuPerformance::from(map)),
+        (GameMode::Taiko, true) => Performance::Taiko(TaikoPerformance::from(map)),
+        (GameMode::Catch, true) => Performance::Catch(CatchPerformance::from(map)),
+        (GameMode::Mania, true) => Performance::Mania(ManiaPerformance::from(map)),
+    }
+}
+
 /// The mods a `Difficulty` carries.
 pub fn mods_of(d: &Difficulty) -> rosu_pp::GameMods {
     d.clone().inspect().mods
